@@ -207,6 +207,24 @@ CLAIMED = {
         technique="contract-based deductive verification: closed-flag invariant through frame obligations, ghost "
                   "call traces; cvc + pyvc",
     ),
+    'C18': dict(
+        category='proof', engine='cvc',
+        text="b_unpack under contract: the fast path chosen before the loop is, as a proved loop-entry fact, one that "
+             "is only selected for the item types it reads correctly (signed/unsigned integers of the exact size, "
+             "float, double, pointers, _Bool) and never for any other item type; one arbitrary loop iteration is "
+             "verified under that fact against the contract of convert_to_object (the function p[i] uses): the "
+             "object stored as item i is an int with the stored value / the float the stored float or double widens "
+             "to / False or True / a cdata of the item type holding the stored pointer, and a _Bool byte other than "
+             "0/1 goes through convert_to_object. convert_to_object itself is verified for integer, float and "
+             "double ctypes.",
+        design_ref='DESIGN.md section 4 C18',
+        note=COMMON_NOTE + "The loop is summarised (entry fact + one arbitrary iteration; termination and the "
+             "function's result list as a whole are not verified). char / wchar_t string results and items of "
+             "complex, struct, array, long double type are covered by the replay battery only (they take the "
+             "element-wise converter on both sides, which is proved).",
+        technique="contract-based deductive verification: loop-entry invariant + loop-body contract against the "
+                  "callee contract of convert_to_object; cvc (clang AST -> z3/cvc5)",
+    ),
     'C23': dict(
         category='proof', engine='pyvc',
         text="_make_c_or_py_source is verified over a ghost file system with one externally visible state per I/O "
